@@ -32,7 +32,7 @@ class C05(Prop):
   uses_t1 = False
   theorems = [
     'DK.C05.solve_raises_on_failure', 'DK.C05.solve_raises_on_every_status', 'DK.C05.solve_ok_cases',
-    'DK.C05.shortcut_ignores_constraints', 'DK.C05.shortcut_unique',
+    'DK.C05.shortcut_checks_constraints', 'DK.C05.shortcut_ok_iff', 'DK.C05.all_withinTol_iff', 'DK.C05.allWithin_zero_iff', 'DK.C05.shortcut_unique',
     'DK.C05.plain_objective', 'DK.C05.prox_zero_is_none', 'DK.C05.prox_objective',
     'DK.C05.first_order_certificate', 'DK.C05.first_order_certificate_grad', 'DK.feasible_convex',
     'DK.C05.idevice2_closed_form', 'DK.C05.idevice2_first_order', 'DK.C05.idevice2_stationary',
@@ -67,21 +67,70 @@ class C05(Prop):
     return {'kind': 'stub', 'model': m, 'p': G.gen_price(rng, R, n), 's0': s0, 's0shape': shape, 'prox': prox,
             'cb': rng.random() < 0.3, 'res': res, 'probe': G.dyadic_flow(rng, m)}
 
-  def fixed_model(self, rng, tier, violate=False):
-    """every slot fixed (lb == hb): the shortcut applies."""
+  FIXED_CONS = ['none', 'sat-ineq', 'sat-eq', 'viol-ineq', 'viol-eq', 'edge-in-ineq', 'edge-in-eq', 'edge-out-ineq', 'edge-out-eq']
+
+  def fixed_model(self, rng, tier, mkind=None, con=None):
+    """every slot fixed (lb == hb): the shortcut applies.  `con` places one constraint relative to the only in-bounds
+    flow: satisfied / violated, inequality / equality, and just inside / outside the default tolerance 1e-6
+    (2^-24 ~ 6e-8 inside, 2^-16 ~ 1.5e-5 outside).  mkind: a leaf (ADevice with a user constraint), a tree of fixed
+    leaves with aggregate bounds, a tree with an MF adaptor over a zero-flow device carrying a user constraint."""
+    from fractions import Fraction as Fr
     n = rng.randint(1, 4)
-    kids = []
+    mkind = mkind or rng.choice(['leaf', 'tree', 'mf'])
+    con = con or rng.choice(self.FIXED_CONS)
+    eq = con.endswith('eq') and not con.endswith('ineq')
+    if con.startswith('sat'):
+      delta = Fr(0) if eq else C.dy(rng, 0, 2)
+    elif con.startswith('viol'):
+      delta = -C.dy(rng, Fr(1, 8), 2, 3) * (rng.choice([1, -1]) if eq else 1)
+    elif con.startswith('edge-in'):
+      delta = -Fr(1, 1 << 24) * (rng.choice([1, -1]) if eq else 1)
+    elif con.startswith('edge-out'):
+      delta = -Fr(1, 1 << 16) * (rng.choice([1, -1]) if eq else 1)
+    else:
+      delta = None
+    def ucon(vals):
+      w = [C.dy(rng, -2, 2) for _ in vals]
+      c = delta - sum((a*b for a, b in zip(w, vals)), Fr(0))
+      return [{'type': 'eq' if eq else 'ineq', 'w': [C.fs(x) for x in w], 'c': C.fs(c), 'n': len(vals), 'jac': rng.random() < 0.7}]
+    def fixed_leaf(i, cls=None, zero=False):
+      cls = cls or rng.choice(['Device', 'IDevice2', 'CDevice', 'IDevice', 'PVDevice'])
+      d = G.convex_leaf(rng, tier, n, [cls], with_cbounds=False)
+      sign = -1 if cls == 'PVDevice' else 1
+      v = [Fr(0) if zero else sign*C.dy(rng, 0, 3) for _ in range(n)]
+      d['lb'] = [C.fs(x) for x in v]; d['hb'] = [C.fs(x) for x in v]; d['_py']['bform'] = 'table'
+      if cls == 'ADevice':
+        d['prm']['f'] = {'k': 'null'}
+      return d, v
+    if mkind == 'leaf':
+      d, v = fixed_leaf(0, 'ADevice' if delta is not None else None)
+      if delta is not None:
+        d['ucons'] = ucon(v)
+      return {'tree': G.leaf_tree(d, 'f0'), 'n': n}
+    kids, tot = [], [Fr(0)]*n
+    if mkind == 'mf':
+      d, v = fixed_leaf(0, 'ADevice', zero=True)
+      if delta is not None:
+        d['ucons'] = ucon(v)
+      kids.append({'k': 'mf', 'id': 'm0', 'dev': d, 'flows': ['e', 'h'][:rng.randint(1, 2)], 'ratios': None})
     for i in range(rng.randint(1, 3)):
-      d = G.convex_leaf(rng, tier, n, [rng.choice(['Device', 'IDevice2', 'CDevice', 'IDevice', 'PVDevice'])], with_cbounds=False)
-      sign = -1 if d['cls'] == 'PVDevice' else 1
-      v = [C.fs(sign*C.dy(rng, 0, 3)) for _ in range(n)]
-      d['lb'] = list(v); d['hb'] = list(v); d['_py']['bform'] = 'table'
+      d, v = fixed_leaf(i)
       kids.append({'k': 'leaf', 'id': 'f%d' % i, 'dev': d})
+      tot = [a + b for a, b in zip(tot, v)]
     t = {'k': 'node', 'id': 'root', 'sb': None, 'ch': kids, 'sub': False}
-    if violate:
-      lb, _ = gen.tree_box(t, n)
-      tot = [sum((lb[r*n + i] for r in range(len(kids))), C.F(0)) for i in range(n)]
-      t['sb'] = [[C.fs(x + 1), C.fs(x + 2)] for x in tot]
+    if mkind == 'tree' and delta is not None:
+      j = rng.randrange(n)
+      sb = []
+      for i in range(n):
+        if i != j:
+          sb.append([C.fs(tot[i] - 1), C.fs(tot[i] + 1)])
+        elif eq:
+          sb.append([C.fs(tot[i] - delta), C.fs(tot[i] - delta)])      # column sum - bound = delta
+        elif rng.random() < 0.5:
+          sb.append([C.fs(tot[i] - delta), C.fs(tot[i] - delta + 1)])  # lower side: sum - lo = delta
+        else:
+          sb.append([C.fs(tot[i] + delta - 1), C.fs(tot[i] + delta)])  # upper side: hi - sum = delta
+      t['sb'] = sb
     return {'tree': t, 'n': n}
 
   def real_case(self, rng, tier):
@@ -91,12 +140,16 @@ class C05(Prop):
       return {'kind': 'infeasible', 'model': {'tree': m['tree'], 'n': m['n']}, 'why': m['why'],
               'p': G.gen_price(rng, G.model_rows(m), m['n']), 's0': None, 's0shape': 'flat', 'prox': None}
     if r < 0.17:
-      m = self.fixed_model(rng, tier, violate=rng.random() < 0.4)
+      m = self.fixed_model(rng, tier)
       return {'kind': 'real', 'model': m, 'p': G.gen_price(rng, G.model_rows(m), m['n']), 's0': None, 's0shape': 'flat', 'prox': None}
     if r < 0.32:
       n = rng.randint(1, 6 if tier == 'quick' else 8)
       d = G.convex_leaf(rng, tier, n, [rng.choice(['IDevice2', 'IDevice2', 'Device', 'PVDevice', 'CDevice'])], with_cbounds=False)
       return {'kind': 'closed', 'dev': d, 'p': [C.fs(C.dy(rng, -3, 3, 3)) for _ in range(n)]}
+    if r < 0.42:       # the proximal penalty is centred on the CALLER's start point, also where device.project would move it (MF adaptors)
+      m = G.random_model(rng, tier, 'mf', nmax=4)
+      return {'kind': 'real', 'model': m, 'p': G.gen_price(rng, G.model_rows(m), m['n']), 's0': G.dyadic_flow(rng, m),
+              's0shape': rng.choice(['flat', 'dev']), 'prox': rng.choice(['1/2', '2', '8'])}
     m = G.random_model(rng, tier)
     R, n = G.model_rows(m), m['n']
     s0, shape = None, 'flat'
@@ -119,7 +172,7 @@ class C05(Prop):
     mk = lambda m, p: {'kind': 'real', 'model': m, 'p': p, 's0': None, 's0shape': 'flat', 'prox': None}
     return [mk(two_rows, '3/2'),        # every multi-row solve raised a low-level SciPy error (matrix-shaped Jacobian)
             mk(fixed, '0'),             # the fixed-flow shortcut returned a flat vector
-            mk(fixed_bad, '0')]         # ... and still ignores the constraints (aggregate bounds exclude the only in-bounds flow)
+            mk(fixed_bad, '0')]         # ... and ignored the constraints (aggregate bounds exclude the only in-bounds flow): must raise
 
   def cases(self, rng, tier, count):
     out = []
@@ -129,12 +182,15 @@ class C05(Prop):
         for status in G.SLSQP_STATUSES:
           for success in (True, False):
             out.append(self.stub_case(rng, tier, mkind, status, success))
-    for _ in range(4*reps):     # the shortcut under the stub: the optimiser must not be called
-      m = self.fixed_model(rng, tier)
-      R, n = G.model_rows(m), m['n']
-      out.append({'kind': 'stub', 'model': m, 'p': G.gen_price(rng, R, n), 's0': None, 's0shape': 'flat', 'prox': None, 'cb': False,
-                  'res': {'x': [C.fs(C.dy(rng, -4, 4, 3)) for _ in range(R*n)], 'success': rng.random() < 0.5, 'status': rng.choice([0, 4, 8]), 'message': 'stub'},
-                  'probe': G.dyadic_flow(rng, m)})
+    for _ in range(reps):       # the shortcut under the stub: the optimiser must not be called; constraints decide ok / raise
+      for mkind in STUB_MODELS:
+        for con in self.FIXED_CONS:
+          m = self.fixed_model(rng, tier, mkind, con)
+          R, n = G.model_rows(m), m['n']
+          out.append({'kind': 'stub', 'model': m, 'p': G.gen_price(rng, R, n), 's0': None, 's0shape': 'flat', 'prox': None, 'cb': False,
+                      'ftol': rng.choice([None, None, None, '1/1024', '1/1048576', '1/1073741824']),
+                      'res': {'x': [C.fs(C.dy(rng, -4, 4, 3)) for _ in range(R*n)], 'success': rng.random() < 0.5, 'status': rng.choice([0, 4, 8]), 'message': 'stub'},
+                      'probe': G.dyadic_flow(rng, m)})
     for _ in range(count):
       out.append(self.real_case(rng, tier))
     return out
@@ -165,7 +221,8 @@ class C05(Prop):
     S.minimize = stub
     try:
       try:
-        s, o = S.solve(dev, p, s0, prox=prox, cb=cb)
+        opts = {'ftol': C.pf(case['ftol'])} if case.get('ftol') is not None else {}
+        s, o = S.solve(dev, p, s0, solver_options=opts, prox=prox, cb=cb)
         if tuple(n_.array(s).shape) != tuple(int(v) for v in dev.shape):
           raise ValueError('solve returned shape %s for a device of shape %s' % (n_.array(s).shape, tuple(dev.shape)))
         if o is None:
@@ -175,7 +232,7 @@ class C05(Prop):
         else:
           raise ValueError('solve returned a result object that is not the optimiser\'s')
       except S.OptimizationException as e:
-        outcome = [0.0] if e.o is fake else [9.0]
+        outcome = [0.0] if e.o is fake else ([3.0] if not rec.get('calls') else [9.0])
     finally:
       S.minimize = old
     args = []
@@ -190,7 +247,7 @@ class C05(Prop):
   def ops(self, case):
     if case['kind'] == 'stub':
       m = case['model']
-      base = {'tree': m['tree'], 'n': m['n'], 'P': case['p'], 's0': case['s0'], 'prox': case['prox'], 'cb': case['cb']}
+      base = {'tree': m['tree'], 'n': m['n'], 'P': case['p'], 's0': case['s0'], 'prox': case['prox'], 'cb': case['cb'], 'ftol': case.get('ftol')}
       memo = {}
       def run():
         if 'r' not in memo:
@@ -232,12 +289,21 @@ class C05(Prop):
       return [{'key': dict(key, kind='stub-raised', exc=type(e).__name__),
                'detail': 'solve under a stubbed optimiser (status %d, success %s) raised %s: %s' % (res['status'], res['success'], type(e).__name__, str(e)[:200])}]
     code = outcome[0]
-    if code == 2.0:      # shortcut: the optimiser result is irrelevant — but only a fully fixed device may take it
+    if code in (2.0, 3.0):     # shortcut: the optimiser result is irrelevant — but only a fully fixed device may take it
       lb, hb = G.model_box(case['model'])
       if any(a != b for a, b in zip(lb, hb)):
         return [{'key': dict(key, kind='shortcut-on-free-device'),
-                 'detail': 'solve returned without calling the optimiser although %d of %d slots are not fixed (bounds %s / %s)' % (
-                   sum(a != b for a, b in zip(lb, hb)), len(lb), lb, hb)}]
+                 'detail': 'solve %s without calling the optimiser although %d of %d slots are not fixed (bounds %s / %s)' % (
+                   'returned' if code == 2.0 else 'raised', sum(a != b for a, b in zip(lb, hb)), len(lb), lb, hb)}]
+      tol = C.pf(case['ftol']) if case.get('ftol') is not None else 1e-6
+      dev = G.build_model(case['model'])
+      v, what = G.violation(dev, n_.array(lb), case['model'])
+      if code == 2.0 and v > tol*(1 + 1e-9) + 1e-15:
+        return [{'key': dict(key, kind='infeasible-return', shortcut=True),
+                 'detail': 'fixed-flow shortcut returned %s which violates %s by %.3g (tolerance %g)' % (lb, what, v, tol)}]
+      if code == 3.0 and v < 0.5*tol:
+        return [{'key': dict(key, kind='fixed-feasible-raised'),
+                 'detail': 'every slot is fixed and the only in-bounds flow %s satisfies all constraints (max violation %.3g, tolerance %g) but solve raised' % (lb, v, tol)}]
       return []
     if not res['success'] and code != 0.0:
       return [{'key': dict(key, kind='silent-failure'),
